@@ -261,6 +261,22 @@ func assignsTo(fd *ast.FuncDecl, v string) []ast.Expr {
 	return out
 }
 
+// i-- / i++ statements on variable v, as pseudo expressions (v - 1) / (v + 1)
+func incDecs(fd *ast.FuncDecl, v string) []ast.Expr {
+	var out []ast.Expr
+	ast.Inspect(fd.Body, func(n ast.Node) bool {
+		if s, ok := n.(*ast.IncDecStmt); ok && exprString(s.X) == v {
+			op := token.ADD
+			if s.Tok == token.DEC {
+				op = token.SUB
+			}
+			out = append(out, &ast.BinaryExpr{X: s.X, Op: op, Y: &ast.BasicLit{Kind: token.INT, Value: "1"}})
+		}
+		return true
+	})
+	return out
+}
+
 func callsTo(fd *ast.FuncDecl, fn string) []*ast.CallExpr {
 	var out []*ast.CallExpr
 	ast.Inspect(fd.Body, func(n ast.Node) bool {
@@ -345,6 +361,8 @@ func locate(repo string, s Site) ast.Expr {
 		return cs[n].Args[a]
 	case "return":
 		return nth(returns(fd), atoi(parts[1]), s.Func+" return")
+	case "incdec":
+		return nth(incDecs(fd, parts[1]), atoi(parts[2]), s.Func+" incdec "+parts[1])
 	}
 	panic(trErr{"bad selector " + s.Sel})
 }
@@ -428,6 +446,10 @@ func generate(repo string, m Module) (string, []string) {
 				return
 			}
 			e := locate(repo, s)
+			if s.Ret == "text" {
+				fmt.Fprintf(&b, "-- %s %s %s\ndef %s : String := %s\n", s.File, s.Func, s.Sel, s.Name, strconv.Quote(exprString(e)))
+				return
+			}
 			t := &translator{leaves: merged(m.Global, s.Leaves), params: paramNames(s.Params)}
 			body = t.tr(e)
 			fmt.Fprintf(&b, "-- %s %s %s: %s\ndef %s %s : %s := %s\n", s.File, s.Func, s.Sel, exprString(e), s.Name, s.Params, s.Ret, body)
